@@ -142,7 +142,9 @@ func checkCommentComplete(src string, c token.TokenComment, add func(sig, msg st
 
 func oracleC13(ctx *harness.Ctx, cs *harness.Case) (ds []harness.Discrepancy) {
 	src := cs.Input
-	add := func(sig, msg string) { ds = append(ds, harness.Discrepancy{Sig: sig, Msg: msg + " input=" + q(trunc(src, 120))}) }
+	add := func(sig, msg string) {
+		ds = append(ds, harness.Discrepancy{Sig: sig, Msg: msg + " input=" + q(trunc(src, 120))})
+	}
 	var toks []token.Token
 	var lerr error
 	o := guarded(func() ([]astNode, error) {
@@ -211,7 +213,9 @@ func oracleC13(ctx *harness.Ctx, cs *harness.Case) (ds []harness.Discrepancy) {
 
 func oracleC14(ctx *harness.Ctx, cs *harness.Case) (ds []harness.Discrepancy) {
 	src := cs.Input
-	add := func(sig, msg string) { ds = append(ds, harness.Discrepancy{Sig: sig, Msg: msg + " input=" + q(trunc(src, 120))}) }
+	add := func(sig, msg string) {
+		ds = append(ds, harness.Discrepancy{Sig: sig, Msg: msg + " input=" + q(trunc(src, 120))})
+	}
 	var toks []token.Token
 	var lerr error
 	o := guarded(func() ([]astNode, error) { toks, lerr = mfLex(src); return nil, nil })
